@@ -19,7 +19,7 @@ ASSUMPTIONS = [
 CASES = {"quick": 40000, "thorough": 1500000}
 MIN_CASES = {"quick": 10000, "thorough": 30000}
 REQUIRED_CLASSES = ["valid", "invalid"]
-REQUIRED_COUNTERS = ["tiling_checked", "inputs_unchanged_checked", "invalid_rejected_checked", "rejudged_after_accessors", "same_tree_loaded_twice", "attached_netlist_with_movable_hard_modules", "entry:text", "entry:file", "entry:tree", "entry:handle",
+REQUIRED_COUNTERS = ["tiling_checked", "inputs_unchanged_checked", "invalid_rejected_checked", "rejudged_after_accessors", "same_tree_loaded_twice", "attached_netlist_with_movable_hard_modules", "entry:text", "entry:file", "entry:tree", "entry:handle", "entry:tree_numpy",
                      "struct:empty", "struct:full_cover", "struct:ring", "struct:tjunction", "struct:border"]
 
 
@@ -29,7 +29,7 @@ def setup(ctx):
 
 def generate(rng, tier, i):
     d = gd.gen_die(rng, max_n=12 if tier == "quick" or rng.random() < 0.8 else 20)
-    entry = rng.choice(["tree", "tree", "text", "file", "handle"])
+    entry = rng.choice(["tree", "tree", "text", "file", "handle", "tree_numpy"])
     if not d["regions"] and rng.random() < 0.5:
         entry = "string"
     if not d["fixed"] and rng.random() < 0.15:
